@@ -33,6 +33,7 @@ inductive Fin where
   deriving DecidableEq, Repr, Inhabited
 
 inductive Act where
+  | submit (i : Nat)           -- the main thread submits branch i (in index order; executor.py:252-255)
   | begin (i : Nat)            -- a pool worker takes branch i from the head of the work queue
   | finish (i : Nat) (f : Fin) -- branch i's task ends; the done-callback runs in the worker
   | timerFire (i : Nat) (ckOk : Bool)  -- the timer thread resumes branch i (refresh checkpoint ok / failed)
@@ -64,13 +65,17 @@ structure St where
   timers : List (Nat × Nat)   -- TimerScheduler heap: (resume time, branch)
   out : Option Outcome        -- set by `wake`
   maxActive : Nat             -- ghost: high-water mark of `active.length`
+  submitted : Nat             -- how many of the initial tasks the main thread has submitted so far
 
-/-- `execute` up to `_completion_event.wait()` for n > 0 branches: every branch is submitted (RUNNING). -/
+/-- `execute` before the first task is submitted, for n > 0 branches: every branch is PENDING
+(`ExecutableWithState.__init__`).  The main thread then submits the branches one by one (`submit`), and only after
+the last one does it wait for the completion event: workers, done-callbacks and the timer thread already run while
+it is still submitting (a branch may park and be re-submitted before a later branch was submitted at all). -/
 def init (n maxConc : Nat) (cfg : Policy.Cfg) : St :=
   { n := n, maxWorkers := if maxConc = 0 then n else maxConc, cfg := cfg,
-    status := fun i => if i < n then .running else .completed,
-    queue := List.range n, active := [], succ := 0, fail := 0, evt := false, suspendExc := none,
-    fatal := false, clock := 0, timers := [], out := none, maxActive := 0 }
+    status := fun i => if i < n then .pending else .completed,
+    queue := [], active := [], succ := 0, fail := 0, evt := false, suspendExc := none,
+    fatal := false, clock := 0, timers := [], out := none, maxActive := 0, submitted := 0 }
 
 def setStatus (s : St) (i : Nat) (b : BSt) : St :=
   { s with status := fun x => if x = i then b else s.status x }
@@ -92,6 +97,13 @@ def decide (s : St) : St :=
     match shouldSuspend s with
     | some k => { s with suspendExc := some k, evt := true }
     | none => s
+
+/-- `submit_task` for the next initial branch (executor.py:236-255): the task is queued and the branch is RUNNING
+(`ExecutableWithState.run`). -/
+def submit_ (s : St) (i : Nat) : Option St :=
+  if i ≠ s.submitted then none
+  else if ¬ (i < s.n) then none
+  else some { (setStatus s i .running) with queue := s.queue ++ [i], submitted := s.submitted + 1 }
 
 def begin_ (s : St) (i : Nat) : Option St :=
   match s.queue with
@@ -152,6 +164,7 @@ successful cancellation is an action of its own.  The cancelled future's done-ca
 SUSPENDED (`_on_task_complete`, `future.cancelled()` branch). -/
 def cancel_ (s : St) (i : Nat) : Option St :=
   if ¬ s.evt then none
+  else if s.submitted < s.n then none      -- the main thread cancels only after it has submitted everything and woken up
   else if s.out.isSome then none
   else if i ∉ s.queue then none
   else some { (setStatus s i .suspended) with queue := s.queue.erase i }
@@ -161,6 +174,7 @@ not started (their done-callback marks them SUSPENDED), then raise the fatal exc
 exception, or build the result from the current statuses. -/
 def wake (s : St) : Option St :=
   if ¬ s.evt then none
+  else if s.submitted < s.n then none
   else if s.out.isSome then none
   else
     let s := { s with status := fun x => if x ∈ s.queue then .suspended else s.status x, queue := [] }
@@ -170,6 +184,7 @@ def wake (s : St) : Option St :=
       | none => some { s with out := some (.result ((List.range s.n).map s.status)) }
 
 def step (s : St) : Act → Option St
+  | .submit i => submit_ s i
   | .begin i => begin_ s i
   | .finish i f => finish s i f
   | .timerFire i ok => timerFire s i ok
